@@ -75,9 +75,22 @@ func emptyContainer(k int) gopacket.DecodingLayerContainer {
 }
 
 // build a parser over the members selected by mask. how=0: container filled with Put, then
-// installed; how=1: empty container installed, layers added with AddDecodingLayer.
+// installed; how=1: empty container installed, layers added with AddDecodingLayer; how=2: the
+// layers are handed to the constructor NewDecodingLayerParser(first, layers...) and the
+// container it builds is never replaced (cont is ignored).
 func build(first gopacket.LayerType, mask int, cont, how int) (*gopacket.DecodingLayerParser, map[gopacket.LayerType]gopacket.DecodingLayer) {
 	objs := map[gopacket.LayerType]gopacket.DecodingLayer{}
+	if how == 2 {
+		var ls []gopacket.DecodingLayer
+		for i, m := range universe {
+			if mask&(1<<i) != 0 {
+				o := m.mk()
+				objs[m.lt] = o
+				ls = append(ls, o)
+			}
+		}
+		return gopacket.NewDecodingLayerParser(first, ls...), objs
+	}
 	p := gopacket.NewDecodingLayerParser(first)
 	c := emptyContainer(cont)
 	if how == 1 {
@@ -276,7 +289,7 @@ func (x *ctx) fail(c dspace.Case, clause, detail string, cfg string) {
 
 // one parse with one configuration against the expectation
 func (x *ctx) parse(c dspace.Case, r reference, first gopacket.LayerType, mask, cont, how int, ignoreUnsup, deep bool) {
-	cfg := fmt.Sprintf("first=%v set=%s container=%s filled-by=%s IgnoreUnsupported=%v", first, maskNames(mask), containerNames[cont], [...]string{"Put", "AddDecodingLayer"}[how], ignoreUnsup)
+	cfg := fmt.Sprintf("first=%v set=%s container=%s filled-by=%s IgnoreUnsupported=%v", first, maskNames(mask), containerNames[cont], [...]string{"Put", "AddDecodingLayer", "constructor"}[how], ignoreUnsup)
 	p, objs := build(first, mask, cont, how)
 	p.IgnoreUnsupported = ignoreUnsup
 	in := func(t gopacket.LayerType) bool { _, ok := objs[t]; return ok }
@@ -443,14 +456,17 @@ func main() {
 					w.OutcomeString(fmt.Sprint(typesOf(ref.layers), ref.failAt))
 					// full set: every container, both ways of filling it, deep comparison
 					for cont := 0; cont < 4; cont++ {
-						for how := 0; how < 2; how++ {
+						for how := 0; how < 3; how++ {
+							if how == 2 && cont != 0 {
+								continue // the constructor picks its own container
+							}
 							x.parse(c, ref, first, full, cont, how, false, cont == 0 && how == 0)
 						}
 					}
 					x.parse(c, ref, first, full, 0, 0, true, false)
 					// every 11-subset (one member missing), map and array containers
 					for m := range universe {
-						x.parse(c, ref, first, full&^(1<<m), 0, 0, false, true)
+						x.parse(c, ref, first, full&^(1<<m), 0, 2*(m%2), false, true)
 						x.parse(c, ref, first, full&^(1<<m), 2, 1, m%2 == 0, false)
 					}
 					// unmodified seeds: every subset of the universe
